@@ -321,12 +321,23 @@ func c17r2(c *Ctx, id string) {
 				gs := guardsOf(st.Block())
 				var keys []string
 				var lookups []*ssa.Lookup
+				var lookupTerms []string // what carries the looked-up value (the lookup itself, or the helper call that made it)
 				for _, gd := range gs {
 					if ex, ok := gd.Cond.(*ssa.Extract); ok && gd.Branch && ex.Index == 1 {
 						if lk, ok := ex.Tuple.(*ssa.Lookup); ok {
 							if cst, ok := lk.Index.(*ssa.Const); ok && cst.Value != nil {
 								keys = append(keys, constant.StringVal(cst.Value))
 								lookups = append(lookups, lk)
+								lookupTerms = append(lookupTerms, w.Origin(lk))
+							}
+						}
+						// `if v, ok := parseConfigValue(m, "key", parser, …); ok`: a lookup-and-parse helper whose flag is
+						// the presence of the key
+						if call, ok := ex.Tuple.(*ssa.Call); ok {
+							if key, okh := lookupAndParse(w, call); okh {
+								keys = append(keys, key)
+								lookups = append(lookups, nil)
+								lookupTerms = append(lookupTerms, w.Origin(call))
 							}
 						}
 					}
@@ -369,9 +380,9 @@ func c17r2(c *Ctx, id string) {
 				// the innermost lookup decides; outer lookups are mandatory options whose absence panics
 				last := len(keys) - 1
 				okKey := keys[last] == tag
-				okVal := strings.Contains(w.Origin(st.Val), w.Origin(lookups[last])+"#0")
+				okVal := strings.Contains(w.Origin(st.Val), lookupTerms[last]+"#0")
 				for i := 0; i < last; i++ {
-					if !mandatoryLookup(lookups[i]) {
+					if lookups[i] == nil || !mandatoryLookup(lookups[i]) {
 						okKey = false
 					}
 				}
@@ -492,21 +503,7 @@ func c17r3(c *Ctx, id string) {
 			c.Check(okNum, id, "numeric-part", in.Pos(), "number ← "+o, "numeric part parsed from "+o)
 		}
 	})
-	// plain integers resolve to themselves
-	rv := w.Func("helpers", "ResolveUnionIntOrStringValue")
-	if rv != nil {
-		c.see(rv)
-		ok := false
-		allInstrs(rv, func(in ssa.Instruction) {
-			if r, isR := in.(*ssa.Return); isR && len(r.Results) == 1 {
-				o := w.Origin(r.Results[0])
-				if strings.HasPrefix(o, "call(strconv.ParseInt)(") && strings.HasSuffix(o, "#0") {
-					ok = errGuardAny(in.Block())
-				}
-			}
-		})
-		c.Check(ok, id, "plain-integer", rv.Pos(), "a string that parses as an integer resolves to that integer", "plain integer strings are no longer returned as they are")
-	}
+	// (that a plain integer string resolves to that integer is decided by the whole-function evaluation of the resolver, C17.R5)
 	_ = fmt.Sprint
 }
 
@@ -794,82 +791,89 @@ func c17r5(c *Ctx, id string) {
 	w := c.W
 	fn := w.Func("helpers", "ResolveUnionIntOrStringValue")
 	conv := w.Func("helpers", "convertSizeUnitToByte")
-	c.need(fn != nil && conv != nil, id, "helpers.ResolveUnionIntOrStringValue / convertSizeUnitToByte")
+	c.need(fn != nil && conv != nil && len(fn.Params) == 1, id, "helpers.ResolveUnionIntOrStringValue / convertSizeUnitToByte")
 	c.see(fn)
-	in := "param(" + fn.Params[0].Name() + ")"
-	S := "assert(" + in + ",string)#0"
-	parse := "call(strconv.ParseInt)(" + S + ", const(10), const(64))"
-	unit := "call(" + fname(conv) + ")(" + S + ")"
-	// every call of a parser gets the asserted string itself
-	allInstrs(fn, func(ins ssa.Instruction) {
-		cc := callOf(ins)
-		if cc == nil {
-			return
-		}
-		switch {
-		case isStaticCall(cc, "strconv", "", "ParseInt"):
-			o := w.Origin(ins.(ssa.Value))
-			c.Check(o == parse, id, "arg:ParseInt", ins.Pos(), "ParseInt(the configured string, 10, 64)", "integer parser called as "+o+", expected "+parse)
-		case cc.StaticCallee() == conv:
-			o := w.Origin(ins.(ssa.Value))
-			okOrder := errGuard(ins.Block(), false, func(v ssa.Value) bool { return w.Origin(v) == parse+"#1" })
-			c.Check(o == unit && okOrder, id, "arg:unit-parser", ins.Pos(), "unit parser gets the configured string itself, only after the integer parser failed", fmt.Sprintf("unit parser called as %s (expected %s; only after ParseInt failed: %v)", o, unit, okOrder))
-		}
-	})
-	// returns
-	type cond struct {
-		text string
-		ok   func(b *ssa.BasicBlock) bool
-	}
-	assertOK := func(t string) func(b *ssa.BasicBlock) bool {
-		return func(b *ssa.BasicBlock) bool {
-			return guardedBy(b, true, func(v ssa.Value) bool { return w.Origin(v) == "assert("+in+","+t+")#1" })
-		}
-	}
-	errNil := func(call string) func(b *ssa.BasicBlock) bool {
-		return func(b *ssa.BasicBlock) bool {
-			return errGuard(b, true, func(v ssa.Value) bool { return w.Origin(v) == call+"#1" })
-		}
-	}
-	allowed := map[string]cond{
-		"assert(" + in + ",int)#0":  {"the value is an int", assertOK("int")},
-		"assert(" + in + ",uint)#0": {"the value is a uint", assertOK("uint")},
-		parse + "#0":                {"the integer parser succeeded", errNil(parse)},
-		unit + "#0":                 {"the unit parser succeeded", errNil(unit)},
-	}
-	n := 0
-	allInstrs(fn, func(ins ssa.Instruction) {
-		r, ok := ins.(*ssa.Return)
-		if !ok || len(r.Results) != 1 {
-			return
-		}
-		n++
-		o := w.Origin(r.Results[0])
-		var gs []string
-		for _, g := range guardsOf(ins.Block()) {
-			gs = append(gs, fmt.Sprintf("%v:%s", g.Branch, w.Origin(g.Cond)))
-		}
-		construct := fmt.Sprintf("return:%s", o)
-		if want, ok := allowed[o]; ok {
-			c.Check(want.ok(ins.Block()), id, construct, ins.Pos(), "returned only when "+want.text, "returned on a path where it is not established that "+want.text)
-			return
-		}
-		if o == "const(0)" {
-			// only when the value is none of int, uint, string
-			none := 0
-			for _, g := range gs {
-				if strings.HasPrefix(g, "false:assert("+in+",") && strings.HasSuffix(g, "#1") {
-					none++
-				}
+	// evaluated whole over the dynamic type of the value (int, uint, string, anything else) × integer parser succeeds?
+	// × unit parser succeeds? — indifferent to whether the cases are a type switch, a chain of assertions or a table of
+	// per-type resolvers
+	kinds := []string{"int", "uint", "string", "other"}
+	inP := fn.Params[0].Name()
+	h := &Harness{Fn: fn, Choices: map[string]int{"dyn": len(kinds)}, Bools: []string{"intOK", "unitOK"}, Quiet: quietLog, MaxSteps: 4000,
+		NoInline: map[string]bool{fname(conv): true},
+		Valid: func(st *State) bool {
+			if st.C("dyn") != 2 {
+				return st.B("intOK") && st.B("unitOK") // the parsers only matter for strings
 			}
-			c.Check(none == 3, id, construct, ins.Pos(), "0 only for a value that is neither int, uint nor string", "returns 0 on a path where the value has one of the supported types")
-			return
+			return !(st.B("intOK") && !st.B("unitOK")) // the unit parser is not asked when the integer parser succeeded
+		},
+		Args: map[string]func(st *State) AV{inP: func(st *State) AV {
+			switch st.C("dyn") {
+			case 0:
+				return avIface{dyn: types.Typ[types.Int], val: avInt{atom: "theInt"}}
+			case 1:
+				return avIface{dyn: types.Typ[types.Uint], val: avInt{atom: "theUint"}}
+			case 2:
+				return avIface{dyn: types.Typ[types.String], val: avStr{sym: "theString"}}
+			}
+			return avIface{dyn: types.Typ[types.Float64], val: avOpaque{"a float"}}
+		}},
+		Oracle: func(st *State, name string, args []AV, res *types.Tuple) ([]AV, bool) {
+			switch name {
+			case "strconv.ParseInt":
+				if st.B("intOK") {
+					return []AV{avInt{atom: "parsed"}, avIface{isNil: true}}, true
+				}
+				return []AV{avInt{conc: 0}, avIface{sym: "errSyntax"}}, true
+			case fname(conv):
+				if st.B("unitOK") {
+					return []AV{avInt{atom: "inBytes"}, avIface{isNil: true}}, true
+				}
+				return []AV{avInt{conc: 0}, avIface{sym: "errUnit"}}, true
+			}
+			return nil, false
+		}}
+	c.oae(id, "resolver", fn.Pos(), h, func(st *State, out *Outcome) string {
+		ints := out.Effects("strconv.ParseInt")
+		units := out.Effects(fname(conv))
+		ret := ""
+		if !out.Panicked && len(out.Ret) == 1 {
+			ret = avString(out.Ret[0])
 		}
-		c.Fail(id, construct, ins.Pos(), "returns %s: neither the integer itself, the parsed integer nor the unit parser's result", o)
-	})
-	if n < 4 {
-		c.Undecided(id, "floor", 0, "only %d returns found in the resolver (5 on the reference tree)", n)
-	}
+		switch kinds[st.C("dyn")] {
+		case "int", "uint":
+			want := map[string]string{"int": "theInt", "uint": "theUint"}[kinds[st.C("dyn")]]
+			if out.Panicked || len(ints)+len(units) != 0 || !strings.Contains(ret, want) {
+				return fmt.Sprintf("an integer does not map to itself: returns %q, panicked %v, parsers called %d times", ret, out.Panicked, len(ints)+len(units))
+			}
+		case "other":
+			if out.Panicked || len(ints)+len(units) != 0 || ret != "0" {
+				return fmt.Sprintf("a value that is neither integer nor string: returns %q, panicked %v (expected 0)", ret, out.Panicked)
+			}
+		case "string":
+			if len(ints) != 1 || len(ints[0].Args) != 3 || avString(ints[0].Args[0]) != "theString" || avString(ints[0].Args[1]) != "10" || avString(ints[0].Args[2]) != "64" {
+				return "the integer parser is not called once as ParseInt(the configured string, 10, 64): " + out.TraceString()
+			}
+			if st.B("intOK") {
+				if out.Panicked || len(units) != 0 || !strings.Contains(ret, "parsed") {
+					return fmt.Sprintf("a plain integer string: returns %q, panicked %v, unit parser called %d times (expected the parsed integer)", ret, out.Panicked, len(units))
+				}
+				return ""
+			}
+			if len(units) != 1 || len(units[0].Args) != 1 || avString(units[0].Args[0]) != "theString" {
+				return "after the integer parser failed the unit parser is not called once with the configured string itself: " + out.TraceString()
+			}
+			if st.B("unitOK") {
+				if out.Panicked || !strings.Contains(ret, "inBytes") {
+					return fmt.Sprintf("a size with a unit: returns %q, panicked %v (expected the unit parser's result)", ret, out.Panicked)
+				}
+				return ""
+			}
+			if !out.Panicked {
+				return "a string that is neither an integer nor a size with a unit is accepted (returns " + ret + ")"
+			}
+		}
+		return ""
+	}, "int/uint → itself; string → ParseInt(s, 10, 64), else the unit parser on s, else fatal; anything else → 0")
 }
 
 // c17pattern: the regular expression that finds the placeholders is a constant; its syntax tree decides two necessary
@@ -1077,6 +1081,70 @@ func lookupOrKeep(w *World, v ssa.Value, dst *ssa.FieldAddr) (string, bool) {
 		okAll = false
 	})
 	if !okAll || nLook == 0 || nDef == 0 {
+		return "", false
+	}
+	return constant.StringVal(cst.Value), true
+}
+
+// lookupAndParse: call is h(m, "key", …) of a module helper that looks m[key] up and reports, as its last result,
+// whether the key was present (parsing the value on the way; a parse failure is fatal inside the helper): the key.
+func lookupAndParse(w *World, call *ssa.Call) (string, bool) {
+	h := call.Common().StaticCallee()
+	args := call.Common().Args
+	if h == nil || h.Blocks == nil || !w.inModule(h) || len(args) < 2 || len(h.Params) < 2 {
+		return "", false
+	}
+	if _, isMap := args[0].Type().Underlying().(*types.Map); !isMap {
+		return "", false
+	}
+	cst, isC := args[1].(*ssa.Const)
+	if !isC || cst.Value == nil || cst.Value.Kind() != constant.String {
+		return "", false
+	}
+	res := h.Signature.Results()
+	if res.Len() != 2 {
+		return "", false
+	}
+	if bt, ok := res.At(1).Type().Underlying().(*types.Basic); !ok || bt.Kind() != types.Bool {
+		return "", false
+	}
+	var lk *ssa.Lookup
+	allInstrs(h, func(in ssa.Instruction) {
+		if l, ok := in.(*ssa.Lookup); ok && l.CommaOk && unwrap(l.X) == ssa.Value(h.Params[0]) && unwrap(l.Index) == ssa.Value(h.Params[1]) {
+			lk = l
+		}
+	})
+	if lk == nil {
+		return "", false
+	}
+	present := func(x ssa.Value) bool {
+		e2, is2 := x.(*ssa.Extract)
+		return is2 && e2.Tuple == ssa.Value(lk) && e2.Index == 1
+	}
+	okAll, nT, nF := true, 0, 0
+	allInstrs(h, func(in ssa.Instruction) {
+		r, isR := in.(*ssa.Return)
+		if !isR || len(r.Results) != 2 {
+			return
+		}
+		flag, isConst := r.Results[1].(*ssa.Const)
+		if !isConst || flag.Value == nil {
+			okAll = false
+			return
+		}
+		if flag.Value.String() == "true" {
+			nT++
+			if !guardedBy(in.Block(), true, present) {
+				okAll = false
+			}
+		} else {
+			nF++
+			if !guardedBy(in.Block(), false, present) {
+				okAll = false
+			}
+		}
+	})
+	if !okAll || nT == 0 || nF == 0 {
 		return "", false
 	}
 	return constant.StringVal(cst.Value), true
